@@ -596,8 +596,8 @@ impl Engine for CertChainEngine {
         }
         Some(Plan {
             runs: match tier {
-                Tier::Quick => 1600,
-                Tier::Thorough => 60_000,
+                Tier::Quick => 2000,
+                Tier::Thorough => 100_000,
             },
             level: "exploration",
             rule: "one run = one seeded history: an honest chain (2-7 epochs, 1-4 certificates per epoch, real keys and STM multi-signatures, signer sets and parameters evolving at epoch boundaries with a per-run stability knob) + an adversary workshop, then 1-6 verify calls (70 % mithril_client verify_chain, 30 % common verify_certificate_chain) against one persistent client (cache in 50 % of runs), each with 0-3 provider lies, plus cache resets and persistent provider mode switches; 20 % of runs are fault-free. A run is non-trivial iff at least one call reached a verdict and, in adversarial runs, at least one lie or adversarial certificate was actually served. distinct = distinct hash of the per-call sequence (subject, verdict / rejection class, oracle verdict, kinds of lies served, cache hit yes/no). states = distinct (subject, cache, verdict class, oracle verdict, lie kinds, #cache hits, #requests) tuples.".into(),
@@ -636,6 +636,20 @@ impl Engine for CertChainEngine {
         let (sc, ws) = generate::generate(&mut chain_rng, &mut rng);
         let t1 = t0.elapsed();
         let report = Self::evaluate(&sc, &ws, ctx.run, ctx.want_sample, true);
+        // debugging aid: VERIF_DUMP_ON_PROBE=<counter> writes the scenario of every run that hit
+        // that counter as a replayable document (replay prints the explained trace)
+        if let Ok(probe) = std::env::var("VERIF_DUMP_ON_PROBE")
+            && report.counters.contains_key(&probe)
+        {
+            let dir = sim_core::verif_root().join("replays");
+            let _ = std::fs::create_dir_all(&dir);
+            let doc = json!({"property": PROPERTY, "clause": "-", "detail": format!("probe {probe}"), "engine": "certchain-sim",
+                "seed": ctx.seed, "run": ctx.run, "tier": ctx.tier.as_str(), "replay": {"scenario": sc}});
+            let _ = std::fs::write(
+                dir.join(format!("probe-{probe}-s{}-r{}.json", ctx.seed, ctx.run)),
+                serde_json::to_string_pretty(&doc).unwrap_or_default(),
+            );
+        }
         if std::env::var_os("VERIF_TIMING").is_some() {
             // diagnostics only (stderr); never part of the report
             eprintln!(
